@@ -200,7 +200,7 @@ def run(rep):
         if dev == "D_CloseSkipsUnregistered":
             # reachable only together with the early connected flag; shown on the socket invariant alone
             devset, invs = '{"D_ConnectedBeforeRegistered", "D_CloseSkipsUnregistered"}', ("ClosedIsReleased",)
-        r2, _ = tlc.run("Life", cfg(role, consumers, dev=devset, live=live, budget=0, invs=invs), workers=16, timeout=1800)
+        r2, _ = tlc.run("Life", cfg(role, consumers, dev=devset, live=live, budget=1 if dev == "D_UnlockedStop" else 0, invs=invs), workers=16, timeout=1800)
         if not r2.violated:
             raise tlc.TlcError(f"vacuity self-test: deviation {dev} violates nothing")
         rep.notes.setdefault("deviations_shown_to_violate", {})[dev] = r2.violated
